@@ -244,6 +244,17 @@ def emitParse (w : World) (ci : Nat) (x : Ctx) (out : ParseOut) : World × List 
   (w1, [s!"R {out.rc}"] ++ out.diags.map showDiag ++ out.trace.map showCall ++
         [s!"I {out.incAfter} 0"] ++ (if out.fuelOut then ["H fuel"] else []))
 
+/-- `cfg_setlist` / `cfg_addlist`; with a fault schedule pending, through the allocation-level model -/
+def listUnderFault (w : World) (ci : Nat) (x : Ctx) (path : Bytes) (vs : List Val) (append : Bool) : World × List String :=
+  match w.fault, (getoptPath x.cfg path).ref, (getoptPath x.cfg path).ref.bind x.cfg.getOpt with
+  | some _, some r, some o =>
+    if !o.flags.list then emitApi { w with fault := none } ci x (apiList x.cfg path vs append)
+    else
+      let o1 := if append then o.setFlags { o.flags with reset := false } else (freeValue o).1
+      let out := addlistF o1 vs w.fault
+      (setCtx { w with fault := none } ci (some { x with cfg := x.cfg.setOpt r out.opt }), [if out.ok then "R 0" else "R -1"])
+  | _, _, _ => emitApi w ci x (apiList x.cfg path vs append)
+
 def step (w : World) (ws : List String) : World × List String :=
   let orc := mkOracle w
   let withCtx (c : String) (f : Nat → Ctx → World × List String) : World × List String :=
@@ -295,10 +306,10 @@ def step (w : World) (ws : List String) : World × List String :=
   | ["PF", c, p] => withCtx c fun ci x => emitParse w ci x (parseFile orc (mkPEnv w x.dirs) x.cfg (bytesOfHex p) w.k)
   | "SL" :: c :: p :: vs => withCtx c fun ci x =>
       let ty := (optTyAt x.cfg (bytesOfHex p)).getD .int
-      emitApi w ci x (apiList x.cfg (bytesOfHex p) (vs.map (valOfWords ty)) false)
+      listUnderFault w ci x (bytesOfHex p) (vs.map (valOfWords ty)) false
   | "AL" :: c :: p :: vs => withCtx c fun ci x =>
       let ty := (optTyAt x.cfg (bytesOfHex p)).getD .int
-      emitApi w ci x (apiList x.cfg (bytesOfHex p) (vs.map (valOfWords ty)) true)
+      listUnderFault w ci x (bytesOfHex p) (vs.map (valOfWords ty)) true
   | "SM" :: c :: p :: vs => withCtx c fun ci x =>
       emitApi w ci x (apiSetmulti orc w.k x.cfg (bytesOfHex p) (vs.map optOfHex))
   | ["SOA", c, p] => withCtx c fun ci x =>
